@@ -251,6 +251,15 @@ def do_case(fam, dims, shape, st, parts=("walk", "count")):
     CC.new_case(cj, {"family": fam, "ndims": len(dims), "scaffold": not one_axis, "shape": "inferred" if shape is None else "explicit",
                      "nrows": nrows})
     kw = {} if shape is None else {"interacting_shape": shape}
+    if shape is None and "count" in parts:
+        # C02: "explicit or inferred cube shape" - the inferred shape must admit every category that occurs AND every
+        # dimension's common value (anchor: shape inference from entries and common): exactly max(category or common) + 1
+        ok, c0 = _try(lambda: ccube(idx))
+        want = inferred(dims)
+        MON.check("ccubes.ccube.__init__/ensures-inferred-shape-admits-every-category-and-common",
+                  bool(ok) and tuple(int(e) for e in c0.interacting_shape) == tuple(want),
+                  lambda: "inferred interacting_shape %r, the categories and common values need %r" % (getattr(c0, "interacting_shape", None), want),
+                  cj, {"family": fam, "ndims": len(dims), "shape": "inferred"})
     if one_axis and "walk" in parts and (shape is None or "count" in parts):
         # the walk does not read the cube shape: in a walk-only run the explicit-shape twin of a case
         # would repeat the inferred-shape one call for call
